@@ -205,6 +205,68 @@ func c06Recorders(c *Ctx, ge *GuardEngine) {
 		}
 	}
 	c.Min("pre-block-element-kept", 2)
+	// resolvers: a recorder that marks the diff resolved and (re)stores the element without the first-touch test is
+	// fine only if every caller hands it the element as it stood BEFORE the block (the parent a transaction carries,
+	// an element of the block supplement) — not the MidState's own view, which reflects revisions made earlier in
+	// the block: the diff's element is what a revert restores.
+	for _, fn := range SortedFuncs(c.P.AllFuncs()) {
+		if !c.P.InModule(fn) || fn.Pkg == nil || relPkg(fn.Pkg.Pkg) != "consensus" || strings.Contains(fn.Name(), "JSON") || fn.Synthetic != "" {
+			continue
+		}
+		isResolver := false
+		for _, f := range []string{"Resolved", "Resolution"} {
+			for _, st := range fieldStores(fn, f) {
+				if fa, ok := st.Addr.(*ssa.FieldAddr); ok && strings.HasSuffix(typeName(fa.X.Type()), "FileContractElementDiff") {
+					isResolver = true
+				}
+			}
+		}
+		if !isResolver {
+			continue
+		}
+		fi := ge.info(fn)
+		for _, elemField := range []string{"FileContractElement", "V2FileContractElement"} {
+			for _, st := range fieldStores(fn, elemField) {
+				fa := st.Addr.(*ssa.FieldAddr)
+				if !strings.HasSuffix(typeName(fa.X.Type()), "ElementDiff") {
+					continue
+				}
+				hasNotCreated, hasNoRevision := false, false
+				for _, cx := range ge.condCtx(fi, st.Block(), nil) {
+					if strings.HasSuffix(cx, ".Created is false") {
+						hasNotCreated = true
+					}
+					if strings.HasSuffix(cx, ".Revision == nil") {
+						hasNoRevision = true
+					}
+				}
+				if hasNotCreated && hasNoRevision {
+					c.OK("pre-block-element-kept", FuncName(fn)+":resolve", c.P.Pos(st.Pos()), "the resolver (re)stores the diff's element only on first touch")
+					continue
+				}
+				// unguarded: look at what the callers pass
+				bad, sites := "", 0
+				for _, entry := range []string{AT, A2T, MAB} {
+					cs, ok := ge.EntryCalls(entry)
+					if !ok {
+						continue
+					}
+					for _, cf := range cs {
+						if cf.Callee != fn || len(cf.Args) < 2 {
+							continue
+						}
+						sites++
+						if strings.Contains(cf.Args[1], "{consensus.MidState}") {
+							bad = "at " + c.P.Pos(cf.Pos) + " it is handed " + cf.Args[1]
+						}
+					}
+				}
+				okr := bad == "" && sites > 0
+				c.Check(okr, "pre-block-element-kept", FuncName(fn)+":resolve", c.P.Pos(st.Pos()), ifElse(okr, fmt.Sprintf("the resolver stores the element unconditionally, and all %d call sites hand it the element as carried by the transaction / block supplement (pre-block)", sites),
+					"the resolver overwrites the diff's element unconditionally and "+bad+": the MidState's view of a contract revised earlier in the block replaces the pre-block element, which is what a revert restores"))
+			}
+		}
+	}
 }
 
 // c06ProofUpdateOrder: updateProof selects the group of updated leaves by len(e.MerkleProof), and both update
